@@ -47,3 +47,10 @@ def _short_func(func):
 def key_kani(ob, fc):
     """Key = obligation id | failed-check description | function (no line numbers: they move with unrelated edits)."""
     return f"{ob.id}|{fc['desc']}|{os.path.basename(fc['file'])}|{_short_func(fc['func'])}"
+
+
+def key_mirsym(ob, label):
+    """Key = obligation id | violated post-condition label or panic site (basic-block numbers removed)."""
+    label = re.sub(r":bb\d+", "", label)
+    label = re.sub(r"\s+", " ", label).strip()
+    return f"{ob.id}|{label}"
